@@ -214,6 +214,12 @@ func NewPeer(
 
 	bus.Publish(event.NewMessage(event.PeerInfoName, event.PeerInfo{Info: p.PeerInfo()}))
 
+	// No retry can be running yet: a retry recorded as running was interrupted when the node stopped.
+	err = p.resetInterruptedReplicatorRetries(ctx)
+	if err != nil {
+		return nil, err
+	}
+
 	go p.handleReplicatorRetries(ctx)
 
 	err = p.loadAndPublishReplicators(ctx)
